@@ -300,6 +300,10 @@ func TestVerifC14_Mux(t *testing.T) {
 			c.Topics = append(c.Topics, c14GenTopic(rt, "t"))
 		}
 		nf := rapid.IntRange(1, 8).Draw(rt, "nFilters")
+		if rapid.IntRange(0, 3).Draw(rt, "large") == 0 {
+			// a large mux (any size-dependent dispatch structure must keep set and order)
+			nf = rapid.IntRange(9, 70).Draw(rt, "nFiltersLarge")
+		}
 		for i := 0; i < nf; i++ {
 			c.Filters = append(c.Filters, c14GenFilter(rt, "f", c.Topics[rapid.IntRange(0, nt-1).Draw(rt, "base")]))
 		}
